@@ -38,7 +38,8 @@ func chainShape(c *Ctx, rule, short, fnName, field, callPat, lockField string) {
 	c.Ob(rule, name+"/in-loop", call.Pos(), inLoop(call.Block()), "the middleware invocation is not in a loop over the chain")
 	// iterates the registered chain (or a copy of it) by increasing index
 	src := T
-	okSrc := strings.Contains(src, recvOf(fn)+"."+field) && strings.Contains(src, "idx<")
+	// the chain walked is the registry field itself, or a clone of it taken in this very call — not a cached copy
+	okSrc := regexpMustCompile(`.*(slices\.Clone\()?`+regexpQuote(recvOf(fn)+"."+field)+`\)?\[idx<.*`).MatchString(src)
 	c.Ob(rule, name+"/iterates-chain-in-order", call.Pos(), okSrc, "invoked function is "+calleeName(&call.Call)+" (expected element [i] of "+recvOf(fn)+"."+field+" for the range index i)")
 	// abort on first non-nil
 	again, trail := PrunedCanReach(fn, call, []Assume{{regexpQuote("(" + T + " != nil)"), true}, {regexpQuote("(" + T + " == nil)"), false}}, func(in ssa.Instruction) bool { return in == ssa.Instruction(call) }, nil)
